@@ -113,6 +113,16 @@ def rule_r1(facts, rep, rid="C07-R1"):
                             kinds.add("ordered")
                         if "Tag::List(v1::None" in txt or "List(None" in txt or "Tag::List(Option::None" in txt:
                             kinds.add("bullet")
+                        if not kinds:
+                            # the start number reaches Tag::List through a local / a parameter of an inlined helper (`self.list_events(Some(1), items)`)
+                            cf_ = ctx(f)
+                            for y in fb.walk(body):
+                                if y.get("k") == "call" and (fb.callee(y) or "").endswith("Tag::List") and y.get("args"):
+                                    pv_ = cf_.vprov(y["args"][0])
+                                    if any(a[0] == "call" and a[1] and fb.last_seg(a[1]) == "Some" for a in pv_):
+                                        kinds.add("ordered")
+                                    if any(a[0] == "def" and fb.last_seg(a[1]) == "None" for a in pv_):
+                                        kinds.add("bullet")
                         key = "%s|arm:%s|%s" % (f.def_, fb.last_seg(v), k)
                         n += 1
                         if kinds == {k}:
